@@ -1,6 +1,6 @@
 (* Lemmas about Model/Splits.v (property C13). *)
 From Coq Require Import ZArith List Bool String Ascii QArith Lia.
-From V Require Import Model.Splits Generated.SplitsGen.
+From V Require Import Model.Splits Model.SplitsCal Generated.SplitsGen.
 Import ListNotations.
 Open Scope list_scope.
 
@@ -409,4 +409,226 @@ Proof.
   - apply exact_coverb_spec. vm_compute. reflexivity.
   - left. reflexivity.
   - reflexivity.
+Qed.
+
+(* ------------------------------------------------------------------ trim: exactly the stated conditions *)
+Definition keep_spec (f : flags) (c : counts) (s : split) : Prop :=
+  (has_wd s = true -> a_wdwe f = true) /\
+  forall x, In x s ->
+    (forall se, snd x = [se] -> allow_season f se = true /\ (split_min_days <= n_season c se)%Z) /\
+    (4 * split_min_days <= 15 * we_count c (snd x))%Z.
+
+Lemma effective_flags_season_conv : forall f c s,
+  allow_season f s = true -> (split_min_days <= n_season c s)%Z ->
+  allow_season (effective_flags f c) s = true.
+Proof.
+  intros f c s H1 H2. destruct s; cbn in *; rewrite H1; cbn;
+    apply negb_true_iff; apply Z.ltb_ge; exact H2.
+Qed.
+
+Theorem trim_keep_iff_l : forall f c s, print_split s <> print_split unsplit ->
+  (trim_keep f c s = true <-> keep_spec f c s).
+Proof.
+  intros f c s Hne. split.
+  - intros H. apply trim_keep_sound; assumption.
+  - intros [Hw Hx]. unfold trim_keep.
+    destruct (print_split s =? "fw-su_sh_wi")%string eqn:E; [reflexivity|].
+    destruct (has_wd s) eqn:W; cbn [andb].
+    + rewrite (Hw eq_refl). cbn [negb]. apply forallb_forall. intros x Hin.
+      destruct (Hx x Hin) as [Ha Hb]. unfold comp_ok. apply andb_true_iff. split.
+      * destruct (snd x) as [|se [|se2 r]] eqn:Es; [reflexivity| |reflexivity].
+        destruct (Ha se eq_refl) as [A1 A2].
+        rewrite (effective_flags_season_conv f c se A1 A2). reflexivity.
+      * apply negb_true_iff. apply Z.ltb_ge. exact Hb.
+    + apply forallb_forall. intros x Hin.
+      destruct (Hx x Hin) as [Ha Hb]. unfold comp_ok. apply andb_true_iff. split.
+      * destruct (snd x) as [|se [|se2 r]] eqn:Es; [reflexivity| |reflexivity].
+        destruct (Ha se eq_refl) as [A1 A2].
+        rewrite (effective_flags_season_conv f c se A1 A2). reflexivity.
+      * apply negb_true_iff. apply Z.ltb_ge. exact Hb.
+Qed.
+
+(* nothing that meets the conditions is removed *)
+Theorem trim_complete_l : forall f c l s, In s l ->
+  (print_split s = print_split unsplit \/ keep_spec f c s) -> In s (trim f c l).
+Proof.
+  intros f c l s Hin H. unfold trim. apply filter_In. split; [exact Hin|].
+  destruct (string_dec (print_split s) (print_split unsplit)) as [E|E].
+  - unfold trim_keep. change (print_split unsplit) with "fw-su_sh_wi"%string in E.
+    rewrite E. reflexivity.
+  - destruct H as [H|H]; [contradiction|]. apply trim_keep_iff_l; assumption.
+Qed.
+
+(* the selected split is the unsplit one or meets the conditions of the settings, the ellipsoid
+   filter and the data *)
+Theorem selected_allowed_l : forall opts, parse_options seasonal_options = Some opts ->
+  forall f gauss sm wm h crit str,
+  map fst crit = combinations opts f gauss sm wm h -> best_x crit = Some str ->
+  str = "fw-su_sh_wi"%string \/
+  exists s, In s (candidates opts) /\ print_split s = str /\
+            keep_spec (match gauss with Some g => flags_and f g | None => f end) (counts_of sm wm h) s.
+Proof.
+  intros opts Ho f gauss sm wm h crit str Hk Hb.
+  destruct (best_is_argmin_l _ _ Hb) as (c & Hin & _).
+  assert (Hs : In str (combinations opts f gauss sm wm h)).
+  { rewrite <- Hk. change str with (fst (str, c)). apply in_map. exact Hin. }
+  unfold combinations in Hs. apply in_map_iff in Hs. destruct Hs as (s & Hp & Hs).
+  destruct (string_dec (print_split s) (print_split unsplit)) as [E|E].
+  - left. rewrite <- Hp. exact E.
+  - right. exists s.
+    destruct (trim_sound_l (match gauss with Some g => flags_and f g | None => f end) (counts_of sm wm h)
+                           (candidates opts)) as (Hincl & _ & Hsound).
+    split; [apply (Hincl s Hs)|]. split; [exact Hp|]. apply Hsound; assumption.
+Qed.
+
+(* ------------------------------------------------------------------ the candidate list has no two
+   members that are the same partition written in another order (the duplicate removal of the code
+   remembers the unsorted text but looks up the sorted one; on today's generator output that is
+   enough) *)
+Definition canon_text (s : split) : string := String.concat "__" (sort_strings (map print_comp s)).
+Fixpoint nodup_strb (l : list string) : bool :=
+  match l with [] => true | x :: r => negb (mem_string x r) && nodup_strb r end.
+
+Lemma mem_string_In : forall x l, mem_string x l = true <-> In x l.
+Proof.
+  intros x l. unfold mem_string. rewrite existsb_exists. split.
+  - intros (y & Hy & E). apply String.eqb_eq in E. subst y. exact Hy.
+  - intros H. exists x. split; [exact H|apply String.eqb_refl].
+Qed.
+
+Lemma nodup_strb_spec : forall l, nodup_strb l = true -> NoDup l.
+Proof.
+  induction l as [|x l IH]; cbn [nodup_strb]; intros H; [constructor|].
+  apply andb_true_iff in H. destruct H as [H1 H2]. constructor; [|apply IH; exact H2].
+  intros Hin. apply mem_string_In in Hin. rewrite Hin in H1. discriminate.
+Qed.
+
+Theorem candidates_distinct_l :
+  exists opts, parse_options seasonal_options = Some opts /\
+    NoDup (map canon_text (candidates opts)) /\
+    List.length (candidates opts) = List.length all_splits.
+Proof.
+  eexists. split; [vm_compute; reflexivity|]. split.
+  - apply nodup_strb_spec. vm_compute. reflexivity.
+  - vm_compute. reflexivity.
+Qed.
+
+(* ------------------------------------------------------------------ calendar: every date *)
+Lemma all_from_spec : forall n z p, all_from n z p = true ->
+  forall k, (0 <= k < Z.of_nat n)%Z -> p (z + k)%Z = true.
+Proof.
+  induction n as [|n IH]; intros z p H k Hk.
+  - cbn in Hk. lia.
+  - cbn [all_from] in H. destruct (p z) eqn:E; [|discriminate].
+    destruct (Z.eq_dec k 0) as [->|Hne].
+    + rewrite Z.add_0_r. exact E.
+    + replace (z + k)%Z with ((z + 1) + (k - 1))%Z by lia. apply IH; [exact H|]. lia.
+Qed.
+
+Definition era_days : Z := 146097.
+
+Lemma doe_of_range : forall z, (0 <= doe_of z < era_days)%Z.
+Proof. intros z. unfold doe_of, era_days. apply Z.mod_pos_bound. reflexivity. Qed.
+
+Section CalendarArith.
+  Local Open Scope Z_scope.
+  Ltac Zify.zify_post_hook ::= Z.to_euclidean_division_equations.
+
+  (* Hinnant's day-of-year (counted from March 1st) stays inside one year *)
+  Lemma doy_of_doe_range : forall doe, 0 <= doe < era_days -> 0 <= doy_of_doe doe <= 365.
+  Proof. intros doe H. unfold era_days in H. unfold doy_of_doe, yoe_of_doe. lia. Qed.
+
+  Lemma mp_of_doe_range : forall doe, 0 <= doe < era_days -> 0 <= mp_of_doe doe <= 11.
+  Proof.
+    intros doe H. pose proof (doy_of_doe_range doe H) as D. unfold mp_of_doe.
+    generalize dependent (doy_of_doe doe). intros doy D. lia.
+  Qed.
+
+  Lemma month_of_doe_range : forall doe, 0 <= doe < era_days -> 1 <= month_of_doe doe <= 12.
+  Proof.
+    intros doe H. pose proof (mp_of_doe_range doe H) as M. unfold month_of_doe.
+    destruct (mp_of_doe doe <? 10) eqn:E; [apply Z.ltb_lt in E|apply Z.ltb_ge in E]; lia.
+  Qed.
+
+  Lemma dom_of_doe_range : forall doe, 0 <= doe < era_days -> 1 <= dom_of_doe doe <= 31.
+  Proof.
+    intros doe H. pose proof (doy_of_doe_range doe H) as D. unfold dom_of_doe, mp_of_doe.
+    generalize dependent (doy_of_doe doe). intros doy D. lia.
+  Qed.
+End CalendarArith.
+
+Theorem month_of_range_l : forall z, (1 <= month_of z <= 12)%Z.
+Proof. intros z. unfold month_of. apply month_of_doe_range. apply doe_of_range. Qed.
+
+Theorem dom_of_range_l : forall z, (1 <= dom_of z <= 31)%Z.
+Proof. intros z. unfold dom_of. apply dom_of_doe_range. apply doe_of_range. Qed.
+
+Theorem dow_of_range_l : forall z, (1 <= dow_of z <= 7)%Z.
+Proof.
+  intros z. unfold dow_of. pose proof (Z.mod_pos_bound (z + 3) 7 eq_refl) as H. lia.
+Qed.
+
+(* the month repeats with the 400-year era, the weekday with the week *)
+Theorem month_of_periodic_l : forall z, month_of (z + era_days)%Z = month_of z.
+Proof.
+  intros z. unfold month_of, doe_of, era_days.
+  replace (z + 146097 + 719468)%Z with (z + 719468 + 1 * 146097)%Z by lia.
+  rewrite Z.mod_add by discriminate. reflexivity.
+Qed.
+
+Theorem dow_of_next_l : forall z, dow_of (z + 1)%Z = (if (dow_of z =? 7)%Z then 1 else dow_of z + 1)%Z.
+Proof.
+  intros z. unfold dow_of.
+  pose proof (Z.mod_pos_bound (z + 3) 7 eq_refl) as H.
+  pose proof (Z.mod_pos_bound (z + 1 + 3) 7 eq_refl) as H'.
+  pose proof (Z.div_mod (z + 3) 7) as D. pose proof (Z.div_mod (z + 1 + 3) 7) as D'.
+  destruct ((z + 3) mod 7 + 1 =? 7)%Z eqn:E; [apply Z.eqb_eq in E|apply Z.eqb_neq in E]; lia.
+Qed.
+
+(* maps as the settings validators leave them: 12 months, 7 days, every name one of the hard-wired
+   ones (empty seasons, no weekend day, ... allowed) *)
+Definition std_maps (sm : list sname) (wm : list dname) : Prop :=
+  List.length sm = 12%nat /\ List.length wm = 7%nat /\
+  Forall (fun n => n <> OtherSeason) sm /\ Forall (fun d => d <> OtherDay) wm.
+
+Lemma lookup_s_std : forall sm month, List.length sm = 12%nat -> Forall (fun n => n <> OtherSeason) sm ->
+  (1 <= month <= 12)%Z -> lookup_s sm month <> OtherSeason.
+Proof.
+  intros sm month HL HF Hm. unfold lookup_s. rewrite Forall_forall in HF. apply HF. apply nth_In.
+  rewrite HL. lia.
+Qed.
+
+Lemma lookup_d_std : forall wm dow, List.length wm = 7%nat -> Forall (fun d => d <> OtherDay) wm ->
+  (1 <= dow <= 7)%Z -> lookup_d wm dow <> OtherDay.
+Proof.
+  intros wm dow HL HF Hm. unfold lookup_d. rewrite Forall_forall in HF. apply HF. apply nth_In.
+  rewrite HL. lia.
+Qed.
+
+Lemma cell_of_std : forall n d, n <> OtherSeason -> d <> OtherDay -> exists x, cell_of n d = Some x.
+Proof. intros [] [] H1 H2; try congruence; cbn; eauto. Qed.
+
+Theorem date_routing_unique_l : forall s, exact_cover s -> forall sm wm, std_maps sm wm ->
+  forall z : Z,
+  exists c x, cell_of (lookup_s sm (month_of z)) (lookup_d wm (dow_of z)) = Some x /\
+              receivers s (lookup_s sm) (lookup_d wm) (month_of z) (dow_of z) = [c] /\
+              In c s /\ covers c x = true.
+Proof.
+  intros s Hs sm wm (L1 & L2 & F1 & F2) z.
+  destruct (cell_of_std _ _ (lookup_s_std sm (month_of z) L1 F1 (month_of_range_l z))
+                            (lookup_d_std wm (dow_of z) L2 F2 (dow_of_range_l z))) as (x & Hx).
+  destruct (routing_unique_l s Hs (lookup_s sm) (lookup_d wm) (month_of z) (dow_of z) x Hx)
+    as (c & H1 & H2 & H3).
+  exists c, x. auto.
+Qed.
+
+(* no other component of the split receives the date *)
+Corollary date_routing_only_l : forall s, exact_cover s -> forall sm wm, std_maps sm wm ->
+  forall z c c', receivers s (lookup_s sm) (lookup_d wm) (month_of z) (dow_of z) = [c] ->
+  In c' s -> routes c' (lookup_s sm) (lookup_d wm) (month_of z) (dow_of z) = true -> c' = c.
+Proof.
+  intros s _ sm wm _ z c c' Hr Hin Hroute.
+  assert (H : In c' (receivers s (lookup_s sm) (lookup_d wm) (month_of z) (dow_of z))).
+  { unfold receivers. apply filter_In. split; assumption. }
+  rewrite Hr in H. destruct H as [H|[]]. symmetry. exact H.
 Qed.
